@@ -7,6 +7,7 @@ import (
 	"strconv"
 	"strings"
 	"sync"
+	"time"
 )
 
 // Baton is the scheduler behind the yield points (internal/verifyield): every
@@ -277,6 +278,10 @@ func (b *Baton) Drive(t *Tape, settle func(), visit func(p *Parked, runnable, wa
 	}
 	var cur uint64
 	for ; steps < maxSteps; steps++ {
+		// a microsecond of simulated time passes between any two scheduling steps, so that two tasks never
+		// act at the same instant: timers armed by two of them never tie (which of two timers due at the
+		// same instant the runtime fires first is owned by nobody)
+		time.Sleep(time.Microsecond)
 		settle()
 		pk := b.Parked()
 		if len(pk) == 0 {
